@@ -104,12 +104,20 @@ def deviations():
         sp["lanelets"][1]["stop_line"]["sign_ref"] = [10]
         sp["lanelets"][2]["stop_line"]["light_ref"] = [12]
 
+    def stopline_refs_none(sp):
+        # stop lines as the constructor makes them by default: sign references given, light references None (2) and the other way round (3)
+        sp["lanelets"][1]["stop_line"]["light_ref"] = None
+        sp["lanelets"][1]["lights"] = []
+        sp["lanelets"][2]["stop_line"]["sign_ref"] = None
+        sp["lanelets"][2]["stop_line"]["light_ref"] = [13]
+        sp["lanelets"][2]["lights"] = [13]
+
     def two_incoming_lanelets(sp):
         sp["intersections"][0]["incomings"][0]["lanelets"] = [1, 2]
         sp["intersections"][0]["incomings"][0]["left"] = [4]
     return [("diamond", diamond), ("sixth-lanelet", sixth), ("adjacency-flip", adj_flip), ("sign-on-all", sign_all), ("second-intersection", second_intersection),
             ("light-shared", light_shared), ("incoming-two-lanelets", two_incoming_lanelets), ("stopline-light-subset", stopline_light_subset), ("one-sided-links", one_sided_links), ("signs-without-first-occurrence", signs_without_first_occurrence),
-            ("shared-reference-sets", shared_reference_sets)]
+            ("shared-reference-sets", shared_reference_sets), ("stopline-refs-none", stopline_refs_none)]
 
 
 def variant(names):
@@ -270,6 +278,9 @@ def enabled_for(level):
                 ops.append(["sc_rm_sign_list", sids[:2]])
             if len(tids) >= 2:
                 ops.append(["sc_rm_light_list", tids[:2]])
+                ops.append(["sc_rm_light_list", [tids[0], tids[0], tids[1]]])      # the same light collected twice (from two lanelets), then another one
+            if len(sids) >= 2:
+                ops.append(["sc_rm_sign_list", [sids[0], sids[0], sids[1]]])
             if iids:
                 ops.append(["sc_rm_intersection_list", iids[:2]])
             # removing a lanelet that is no longer (or never was) in the scenario selects nothing for removal: everything stays as it is -
@@ -506,7 +517,7 @@ def units(tier):
         for level in ("net", "scenario"):
             # thorough: pairs of deviations at depth 2; quick: the four deviations that only alter reference data (not the graph) at depth 2
             d = 2 if (tier == "thorough" and len(v) == 2) else depth
-            if tier == "quick" and v and v[0] in ("stopline-light-subset", "one-sided-links", "signs-without-first-occurrence", "shared-reference-sets"):
+            if tier == "quick" and v and v[0] in ("stopline-light-subset", "one-sided-links", "signs-without-first-occurrence", "shared-reference-sets", "stopline-refs-none"):
                 d = 2
             live = build_net(v) if level == "net" else build_scenario(v)
             u.append({"variant": v, "level": level, "depth": 0, "first": None})
